@@ -214,6 +214,7 @@ func (x *Exec) name(s *State, prefix string, t *Term) *Term {
 	}
 	v := Var(x.eng.fresh(prefix), t.Sort)
 	s.assume(Eq(v, t))
+	defOf[v.Op] = t
 	return v
 }
 
